@@ -23,6 +23,15 @@ OBLIGATIONS.append(dict(name="tar_checksum_ignores_own_field", harness="harness/
     tiers=["quick", "thorough"], timeout=200, reach=["computed"], functions=["tar_compute_checksum (lib/tar/src/checksum.c)"],
     bound="records whose bytes 0..3, 144..159 (the checksum field 148..155 and 4 bytes on either side) and 508..511 are symbolic and whose other bytes are zero; the checksum field is then overwritten with 8 arbitrary bytes"))
 
+def longname(nl, tl, tiers):
+    return dict(name="tar_long_name_n%d_t%d" % (nl, tl), harness="harness/C04_longname.c", sources=[], stubs=["stubs/vp_ctype.c", "stubs/vp_sysmacros.c"],
+        included_sources=["lib/tar/src/write_header.c"], incdirs=["lib/tar/src"], defines=dict(NAMELEN=nl, TLEN=tl), unwind=max(nl, tl) + 4,
+        unwindset={"memset.0": 513, "put_oct.0": 23, "vp_sprintf.0": 13, "oct.0": 13, "write_number.0": 13, "write_binary.0": 13}, tiers=tiers, timeout=300,
+        fp_map={"append": ["cap_append"]}, reach=["short_name" if nl < 100 else "long_name"] + ([("short_target" if tl < 100 else "long_target")] if tl else []),
+        functions=["write_tar_header, write_header, write_ext_header (lib/tar/src/write_header.c)"],
+        bound="name of exactly %d symbolic non-NUL bytes%s" % (nl, (", symlink target of exactly %d symbolic non-NUL bytes" % tl) if tl else ""))
+OBLIGATIONS += [longname(99, 0, ["quick", "thorough"]), longname(100, 0, ["quick", "thorough"]), longname(101, 0, ["thorough"]), longname(3, 99, ["thorough"]), longname(3, 100, ["quick", "thorough"])]
+
 ASSUMPTIONS = ["sprintf is modelled for the formats used (%0*lo, %06o as an octal formatter that also asserts the value fits the field; %lu writes a placeholder digit: uname/gname are never decoded)", "in the composed header query tar_compute_checksum is abstracted to one arbitrary value <= 512*255 per record; justified by the obligation tar_checksum_ignores_own_field (real function) and the arithmetic range of a 512-term byte sum"]
 OUTSIDE = ["tool-level byte fixpoint tar2sqfs -> sqfs2tar -> tar2sqfs, independent tar implementations"]
 META = dict(
